@@ -103,6 +103,113 @@ func (e *Engine) registerIntrinsics2() {
 		}
 	}
 
+	in["bytes.Equal"] = func(c *PathCtx, fr *frame, args []Value) Value {
+		a, _ := args[0].([]Value)
+		b, _ := args[1].([]Value)
+		if len(a) != len(b) {
+			return tFalse
+		}
+		r := tTrue
+		for i := range a {
+			r = tAnd(r, tEq(a[i].(*Term), b[i].(*Term)))
+		}
+		return r
+	}
+
+	// context.WithValue: the standard constructor minus its reflection-based key check
+	in["context.WithValue"] = func(c *PathCtx, fr *frame, args []Value) Value {
+		var vt types.Type
+		for _, p := range c.eng.prog.AllPackages() {
+			if p.Pkg.Path() == "context" {
+				vt = types.NewPointer(p.Type("valueCtx").Type())
+			}
+		}
+		if vt == nil {
+			panic(engineErr("package context not loaded"))
+		}
+		if pi, ok := args[0].(Iface); !ok || pi.T == nil {
+			panic(targetPanic{msg: "cannot create context from nil parent"})
+		}
+		cell := new(Value)
+		*cell = Struct{args[0], args[1], args[2]}
+		return Iface{T: vt, V: cell}
+	}
+
+	// proto.Marshal / Unmarshal: the wire format is not modelled; Marshal returns an opaque
+	// handle ("pb#n") of a deep snapshot, Unmarshal restores the snapshot into a message of
+	// the same type and fails on any other bytes (tombstones, garbage). Checks that need
+	// more (C07) redirect Marshal themselves.
+	pbReg := func(c *PathCtx) *[]Value {
+		if r, ok := c.side["pbreg"]; ok {
+			return r.(*[]Value)
+		}
+		r := &[]Value{}
+		c.side["pbreg"] = r
+		return r
+	}
+	pbMarshal := func(c *PathCtx, fr *frame, args []Value) Value {
+		reg := pbReg(c)
+		*reg = append(*reg, deepCopy(args[0], map[*Value]*Value{}))
+		h := fmt.Sprintf("pb#%d", len(*reg))
+		out := make([]Value, len(h))
+		for i := 0; i < len(h); i++ {
+			out[i] = mkBV(8, uint64(h[i]))
+		}
+		return Tuple{out, Iface{}}
+	}
+	pbUnmarshal := func(c *PathCtx, fr *frame, args []Value) Value {
+		data, _ := args[0].([]Value)
+		bs := make([]byte, len(data))
+		for i, e := range data {
+			et := e.(*Term)
+			if !et.Const {
+				panic(inconclusive("proto.Unmarshal of symbolic bytes"))
+			}
+			bs[i] = byte(et.U)
+		}
+		var n int
+		reg := pbReg(c)
+		if _, err := fmt.Sscanf(string(bs), "pb#%d", &n); err != nil || n < 1 || n > len(*reg) {
+			return c.newError(mkStr("proto: cannot parse invalid wire-format data"), nil)
+		}
+		src := (*reg)[n-1].(Iface)
+		dst := args[1].(Iface)
+		if dst.T == nil || !types.Identical(src.T, dst.T) {
+			return c.newError(mkStr("proto: message type mismatch"), nil)
+		}
+		dp, _ := dst.V.(*Value)
+		sp, _ := deepCopy(src, map[*Value]*Value{}).(Iface).V.(*Value)
+		if dp == nil || sp == nil {
+			return c.newError(mkStr("proto: nil message"), nil)
+		}
+		*dp = *sp
+		return Iface{}
+	}
+	for _, p := range []string{"google.golang.org/protobuf/proto", "github.com/golang/protobuf/proto"} {
+		if _, taken := in[p+".Marshal"]; !taken {
+			in[p+".Marshal"] = pbMarshal
+		}
+		in[p+".Unmarshal"] = pbUnmarshal
+	}
+
+	// conc.Pool (milvus): Submit runs the function on another goroutine; the future is
+	// an opaque value (the repo ignores it)
+	concPkg := "github.com/milvus-io/milvus/pkg/util/conc"
+	in[concPkg+".NewPool"] = func(c *PathCtx, fr *frame, args []Value) Value {
+		p := new(Value)
+		*p = Opaque{}
+		return p
+	}
+	in[concPkg+".WithExpiryDuration"] = func(c *PathCtx, fr *frame, args []Value) Value { return (*ssa.Function)(nil) }
+	in["(*"+concPkg+".Pool[T]).Submit"] = func(c *PathCtx, fr *frame, args []Value) Value {
+		fn := args[1]
+		g := c.spawn("pool.Submit", func() { c.call(nil, 0, fn, nil, nil) })
+		_ = g
+		p := new(Value)
+		*p = Opaque{}
+		return p
+	}
+
 	// proto.Size: an opaque small size (only compared with the batcher's thresholds)
 	in["google.golang.org/protobuf/proto.Size"] = func(c *PathCtx, fr *frame, args []Value) Value { return mkBV(64, 100) }
 
